@@ -2400,6 +2400,10 @@ ure_exec(ure_dfa_t dfa, int flags, ucs2_t *text, unsigned long textlen,
 	for (i = 0; found == 0 && i < stp->ntrans; i++) {
 	  sym = dfa->syms + stp->trans[i].symbol;
 	  if (sym->type ==_URE_EOL_ANCHOR) {
+	    /* zvbi: not when the caller says the text does not end
+	       at the end of a line. */
+	    if (flags & URE_NOTEOL)
+	      break;
 	    stp = dfa->states + stp->trans[i].next_state;
 	    if (stp->accepting) {
 	      me = sp - text;
